@@ -47,19 +47,20 @@ var c14Callables = []c14Callable{
 type c14Arg struct {
 	src string
 	v   interface{}
+	log string // what evaluating this argument records in the call log ("" = nothing): nested calls
 }
 
 // alternatives per parameter kind: spellings that must be accepted (with conversion) and ones that must fail
 func c14Alts(k reflect.Kind) (ok []c14Arg, bad []c14Arg) {
 	switch k {
 	case reflect.String:
-		return []c14Arg{{`"s"`, "s"}, {"sv", "var"}}, []c14Arg{{"nil", nil}, {"sl", []int{1}}}
+		return []c14Arg{{`"s"`, "s", ""}, {"sv", "var", ""}, {`up("n")`, "up<n>", "up<n>"}}, []c14Arg{{"nil", nil, ""}, {"sl", []int{1}, ""}}
 	case reflect.Int:
-		return []c14Arg{{"i3", 3}, {"4", 4.0}, {"mi", MyInt(5)}, {"u6", uint8(6)}}, []c14Arg{{`"str"`, "str"}, {"nil", nil}}
+		return []c14Arg{{"i3", 3, ""}, {"4", 4.0, ""}, {"mi", MyInt(5), ""}, {"u6", uint8(6), ""}, {"inc(2)", 3, "inc(2)"}}, []c14Arg{{`"str"`, "str", ""}, {"nil", nil, ""}}
 	case reflect.Float64:
-		return []c14Arg{{"2.5", 2.5}, {"i3", 3}, {"f32", float32(1.5)}}, []c14Arg{{`"str"`, "str"}}
+		return []c14Arg{{"2.5", 2.5, ""}, {"i3", 3, ""}, {"f32", float32(1.5), ""}, {"inc(2)", 3, "inc(2)"}}, []c14Arg{{`"str"`, "str", ""}}
 	case reflect.Interface:
-		return []c14Arg{{`"s"`, "s"}, {"i3", 3}, {"2.5", 2.5}, {"true", true}}, nil
+		return []c14Arg{{`"s"`, "s", ""}, {"i3", 3, ""}, {"2.5", 2.5, ""}, {"true", true, ""}, {`up("n")`, "up<n>", "up<n>"}}, nil
 	}
 	return nil, nil
 }
@@ -142,6 +143,7 @@ func c14Vars(log *[]string) jet.VarMap {
 		return reflect.ValueOf(rec("jf[" + strings.Join(parts, " ") + "]"))
 	})
 	v.Set("up", func(s string) string { return rec("up<" + s + ">") })
+	v.Set("inc", func(i int) int { rec(fmt.Sprintf("inc(%d)", i)); return i + 1 })
 	v.Set("sv", "var").Set("i3", 3).Set("mi", MyInt(5)).Set("u6", uint8(6)).Set("f32", float32(1.5)).Set("sl", []int{1})
 	return v
 }
@@ -317,7 +319,7 @@ func c14Tuples(c c14Callable, thorough bool) [][]c14Arg {
 			for _, k := range c.fixed {
 				many = append(many, ok0(k))
 			}
-			out = append(out, append(many, c14Arg{`"extra"`, "extra"}))
+			out = append(out, append(many, c14Arg{`"extra"`, "extra", ""}))
 		}
 	}
 	return out
@@ -449,7 +451,24 @@ func C14(r *core.Run) map[string]interface{} {
 			for form, src := range c14Forms(c.name, tup) {
 				cs := c14Case{Form: form, Source: src, Want: want, WantErr: !ok}
 				if ok {
-					cs.WantLog = []string{want}
+					// evaluation order: the piped value first, then the written arguments left to right, then the call
+					piped := -1
+					switch {
+					case strings.HasPrefix(form, "slot"):
+						fmt.Sscanf(form, "slot%d", &piped)
+					case strings.HasPrefix(form, "pipe"):
+						piped = 0
+					}
+					cs.WantLog = []string{}
+					if piped >= 0 && tup[piped].log != "" {
+						cs.WantLog = append(cs.WantLog, tup[piped].log)
+					}
+					for k, a := range tup {
+						if k != piped && a.log != "" {
+							cs.WantLog = append(cs.WantLog, a.log)
+						}
+					}
+					cs.WantLog = append(cs.WantLog, want)
 				}
 				if c.jetFn {
 					hasNil := false
